@@ -124,7 +124,7 @@ class Gen:
             idents = r.sample(IDENTS, len(IDENTS))
             idents = [x for x in idents if x not in args and x not in locs]
             hg = [g for g in GLOBALS if g not in sglobals and r.random() < 0.3]
-            cx = {'locals': locs, 'args': args, 'globals': sglobals + hg, 'props': props, 'lfuncs': hnames}
+            cx = {'locals': locs, 'args': args, 'globals': sglobals + hg, 'sglobals': sglobals, 'props': props, 'lfuncs': hnames}
             if body_fn:
                 body = body_fn(self, cx)
             else:
@@ -133,57 +133,54 @@ class Gen:
         return finish_script({'props': props, 'globals': sglobals, 'factory': None, 'scr_num': r.choice([0, 1, 7, 300]),
                               'handlers': handlers})
 
+# field types: A atom, N name-table string, E expr, L [expr], P [(expr, expr)], M chunk ranges [(type, a, b|None)], B body,
+#              T assignment target (kind, name), R object reference of a method call
+EXPR_SCHEMA = {'int': 'A', 'str': 'A', 'sym': 'N', 'loc': 'A', 'par': 'A', 'glob': 'N', 'prop': 'N', 'bin': 'AEE', 'neg': 'E',
+               'not': 'E', 'call': 'NL', 'lcall': 'AL', 'list': 'L', 'plist': 'P', 'the': 'N', 'objprop': 'AEA', 'menuprop': 'AEE',
+               'menuname': 'E', 'menuitems': 'E', 'numberof': 'A', 'sysprop': 'A', 'special': 'A', 'datetime': 'A', 'keyprop': 'N',
+               'lastchunk': 'AE', 'numchunks': 'AE', 'chunk': 'ME', 'field': 'E', 'accessor': 'EN', 'mcall': 'RNL'}
+STMT_SCHEMA = {'set': 'TE', 'call': 'NL', 'lcall': 'AL', 'if': 'EB', 'ife': 'EBB', 'while': 'EB', 'with': 'AEEB', 'down': 'AEEB',
+               'in': 'AEB', 'exit_repeat': '', 'setthe': 'NE', 'setobjprop': 'AEAE', 'setmenuprop': 'AEEE', 'setsys': 'AE',
+               'setspecial': 'AE', 'setaccessor': 'ENE', 'put': 'AEE', 'delete': 'E', 'hilite': 'E', 'tell': 'EB', 'mcall': 'RNL'}
+
+def walk_node(node, is_stmt, fn_name, fn_expr=None):
+    """calls fn_name(name) for every name-table string below the node (and fn_expr on every expression)"""
+    sch = (STMT_SCHEMA if is_stmt else EXPR_SCHEMA)[node[0]]
+    if not is_stmt and fn_expr:
+        fn_expr(node)
+    if is_stmt and node[0] == 'in':
+        fn_name('count'); fn_name('getAt')
+    for t, v in zip(sch, node[1:]):
+        if t == 'N':
+            fn_name(v)
+        elif t == 'E':
+            walk_node(v, False, fn_name, fn_expr)
+        elif t == 'L':
+            for x in v:
+                walk_node(x, False, fn_name, fn_expr)
+        elif t == 'P':
+            for x, y in v:
+                walk_node(x, False, fn_name, fn_expr); walk_node(y, False, fn_name, fn_expr)
+        elif t == 'M':
+            for ty, x, y in v:
+                walk_node(x, False, fn_name, fn_expr)
+                if y is not None:
+                    walk_node(y, False, fn_name, fn_expr)
+        elif t == 'B':
+            for st in v:
+                walk_node(st, True, fn_name, fn_expr)
+        elif t == 'T':
+            if v[0] in ('glob', 'prop'):
+                fn_name(v[1])
+        elif t == 'R':
+            if v[0] == 'me':
+                fn_name('me')
+
 def collect_names(script):
     names = []
     def add(n):
         if n not in names:
             names.append(n)
-    def walk_e(e):
-        k = e[0]
-        if k in ('sym', 'glob', 'prop'):
-            add(e[1])
-        elif k == 'bin':
-            walk_e(e[2]); walk_e(e[3])
-        elif k in ('neg', 'not'):
-            walk_e(e[1])
-        elif k == 'call':
-            add(e[1])
-            for a in e[2]:
-                walk_e(a)
-        elif k == 'lcall':
-            for a in e[2]:
-                walk_e(a)
-        elif k == 'list':
-            for a in e[1]:
-                walk_e(a)
-        elif k == 'plist':
-            for a, b in e[1]:
-                walk_e(a); walk_e(b)
-    def walk_b(b):
-        for st in b:
-            k = st[0]
-            if k == 'set':
-                if st[1][0] in ('glob', 'prop'):
-                    add(st[1][1])
-                walk_e(st[2])
-            elif k == 'call':
-                add(st[1])
-                for a in st[2]:
-                    walk_e(a)
-            elif k == 'lcall':
-                for a in st[2]:
-                    walk_e(a)
-            elif k == 'if':
-                walk_e(st[1]); walk_b(st[2])
-            elif k == 'ife':
-                walk_e(st[1]); walk_b(st[2]); walk_b(st[3])
-            elif k == 'while':
-                walk_e(st[1]); walk_b(st[2])
-            elif k in ('with', 'down'):
-                walk_e(st[2]); walk_e(st[3]); walk_b(st[4])
-            elif k == 'in':
-                add('count'); add('getAt')
-                walk_e(st[2]); walk_b(st[3])
     for p in script.get('props', []):
         add(p)
     for g in script.get('globals', []):
@@ -196,8 +193,29 @@ def collect_names(script):
             add(a)
         for l in h['locals']:
             add(l)
-        walk_b(h['body'])
+        for st in h['body']:
+            walk_node(st, True, add)
     return names
+
+def node_from_json(node, is_stmt):
+    sch = (STMT_SCHEMA if is_stmt else EXPR_SCHEMA)[node[0]]
+    out = [node[0]]
+    for t, v in zip(sch, node[1:]):
+        if t in 'AN':
+            out.append(v)
+        elif t == 'E':
+            out.append(node_from_json(v, False))
+        elif t == 'L':
+            out.append([node_from_json(x, False) for x in v])
+        elif t == 'P':
+            out.append([(node_from_json(x, False), node_from_json(y, False)) for x, y in v])
+        elif t == 'M':
+            out.append([(ty, node_from_json(x, False), None if y is None else node_from_json(y, False)) for ty, x, y in v])
+        elif t == 'B':
+            out.append([node_from_json(st, True) for st in v])
+        elif t in 'TR':
+            out.append(tuple(v))
+    return tuple(out)
 
 def finish_script(script, rng=None):
     names = collect_names(script)
@@ -209,39 +227,9 @@ def finish_script(script, rng=None):
 def script_to_json(s):
     return json.loads(json.dumps(s))
 def expr_from_json(e):
-    k = e[0]
-    if k in ('int', 'str', 'sym', 'loc', 'par', 'glob', 'prop'):
-        return (k, e[1])
-    if k == 'bin':
-        return (k, e[1], expr_from_json(e[2]), expr_from_json(e[3]))
-    if k in ('neg', 'not'):
-        return (k, expr_from_json(e[1]))
-    if k in ('call', 'lcall'):
-        return (k, e[1], [expr_from_json(a) for a in e[2]])
-    if k == 'list':
-        return (k, [expr_from_json(a) for a in e[1]])
-    if k == 'plist':
-        return (k, [(expr_from_json(a), expr_from_json(b)) for a, b in e[1]])
-    raise ValueError('expr kind %r' % (k,))
-
+    return node_from_json(e, False)
 def stmt_from_json(st):
-    k = st[0]
-    if k == 'set':
-        return (k, (st[1][0], st[1][1]), expr_from_json(st[2]))
-    if k in ('call', 'lcall'):
-        return (k, st[1], [expr_from_json(a) for a in st[2]])
-    if k in ('if', 'while'):
-        return (k, expr_from_json(st[1]), body_from_json(st[2]))
-    if k == 'ife':
-        return (k, expr_from_json(st[1]), body_from_json(st[2]), body_from_json(st[3]))
-    if k in ('with', 'down'):
-        return (k, st[1], expr_from_json(st[2]), expr_from_json(st[3]), body_from_json(st[4]))
-    if k == 'in':
-        return (k, st[1], expr_from_json(st[2]), body_from_json(st[3]))
-    if k == 'exit_repeat':
-        return ('exit_repeat',)
-    raise ValueError('stmt kind %r' % (k,))
-
+    return node_from_json(st, True)
 def body_from_json(b):
     return [stmt_from_json(st) for st in b]
 
@@ -426,6 +414,8 @@ def shrink_body(b):
 
 def shrink_stmt(st):
     k = st[0]
+    if k not in ('set', 'call', 'lcall', 'if', 'while', 'ife', 'with', 'down', 'in'):
+        return
     if k == 'set':
         for e in shrink_expr(st[2]):
             yield ('set', st[1], e)
@@ -460,6 +450,8 @@ def shrink_stmt(st):
 
 def shrink_expr(e):
     k = e[0]
+    if k not in ('bin', 'neg', 'not', 'call', 'lcall', 'list', 'plist', 'int', 'str'):
+        return
     if k == 'bin':
         yield e[2]
         yield e[3]
@@ -667,35 +659,185 @@ def text_pair(ms):
     return ms[1][0].decode('utf-8', 'replace'), ms[1][1].decode('utf-8', 'replace')
 
 def expr_depth(e):
-    k = e[0]
-    if k == 'bin':
-        return 1 + max(expr_depth(e[2]), expr_depth(e[3]))
-    if k in ('neg', 'not'):
-        return 1 + expr_depth(e[1])
-    if k in ('call', 'lcall'):
-        return 1 + max([expr_depth(a) for a in e[2]] + [0])
-    if k == 'list':
-        return 1 + max([expr_depth(a) for a in e[1]] + [0])
-    if k == 'plist':
-        return 1 + max([expr_depth(b) for _, b in e[1]] + [0])
-    return 0
+    sch = EXPR_SCHEMA[e[0]]
+    d = 0
+    for t, v in zip(sch, e[1:]):
+        if t == 'E':
+            d = max(d, expr_depth(v))
+        elif t == 'L':
+            d = max([d] + [expr_depth(x) for x in v])
+        elif t == 'P':
+            d = max([d] + [max(expr_depth(x), expr_depth(y)) for x, y in v])
+        elif t == 'M':
+            d = max([d] + [expr_depth(x) for _, x, _ in v])
+    return d + (1 if any(t in 'ELPM' for t in sch) else 0)
 
 def script_depth(script):
-    d = 0
-    def walk(b):
-        nonlocal d
-        for st in b:
-            k = st[0]
-            if k == 'set':
-                d = max(d, expr_depth(st[2]))
-            elif k in ('call', 'lcall'):
-                d = max([d] + [expr_depth(a) for a in st[2]])
-            elif k in ('if', 'while'):
-                walk(st[2])
-            elif k == 'ife':
-                walk(st[2]); walk(st[3])
-            elif k in ('with', 'down'):
-                walk(st[4])
+    d = [0]
+    def fe(e):
+        d[0] = max(d[0], expr_depth(e))
     for h in script['handlers']:
-        walk(h['body'])
-    return d
+        for st in h['body']:
+            walk_node(st, True, lambda n: None, fe)
+    return d[0]
+
+def script_kinds(script):
+    """set of statement / expression kinds occurring in the script"""
+    out = set()
+    def rec(node, is_stmt):
+        out.add(node[0])
+        sch = (STMT_SCHEMA if is_stmt else EXPR_SCHEMA)[node[0]]
+        for t, v in zip(sch, node[1:]):
+            if t == 'E':
+                rec(v, False)
+            elif t == 'L':
+                for x in v:
+                    rec(x, False)
+            elif t == 'P':
+                for x, y in v:
+                    rec(x, False); rec(y, False)
+            elif t == 'M':
+                for _, x, y in v:
+                    rec(x, False)
+                    if y is not None:
+                        rec(y, False)
+            elif t == 'B':
+                for st in v:
+                    rec(st, True)
+    for h in script['handlers']:
+        for st in h['body']:
+            rec(st, True)
+    return out
+
+# ------------------------------------------------------------------ the further instruction families
+import lingo_spec as _S
+CHUNKS = ['char', 'word', 'item', 'line']
+BYNAME_PROPS = ['itemDelimiter', 'actorList', 'floatPrecision2', 'myProp', 's', 'an', 'tor', 'a', 'speed', 'frameLabel']
+
+class GenExt(Gen):
+    """adds the 'the' properties, chunk expressions, put / delete / hilite, tell blocks and list loops"""
+    def idexpr(self, cx):
+        r = self.rng
+        k = r.random()
+        if k < 0.6:
+            return ('int', r.choice([1, 2, 5, 12, 48, 120]))
+        if k < 0.8 and cx['locals']:
+            return ('loc', r.choice(cx['locals']))
+        if k < 0.9 and cx['args']:
+            return ('par', r.choice(cx['args']))
+        if cx['globals']:
+            return ('glob', r.choice(cx['globals']))
+        return ('int', 3)
+    def small(self, cx):
+        return self.expr(cx, self.rng.choice([0, 0, 1]))
+    def mods(self, cx):
+        r = self.rng
+        n = r.choice([1, 1, 1, 2, 3, 4])
+        types = sorted(r.sample(range(4), n))
+        out = []
+        for t in types:
+            a = ('int', r.choice([1, 2, 3, 10])) if r.random() < 0.7 else ('loc', cx['locals'][0]) if cx['locals'] else ('int', 2)
+            b = None
+            if r.random() < 0.3:
+                b = ('int', r.choice([4, 12]))
+            out.append((CHUNKS[t], a, b))
+        return out
+    def ext_expr(self, cx):
+        r = self.rng
+        k = r.randrange(16)
+        if k == 0:
+            return ('the', r.choice(BYNAME_PROPS))
+        if k == 1:
+            kind = r.choice(['sprite', 'cast', 'sound'])
+            table = {'sprite': _S.SPRITE_PROPS, 'cast': _S.CAST_PROPS, 'sound': _S.SOUND_PROPS}[kind]
+            prop = r.choice([p for p in table if not p.startswith('UNKNOWN')])
+            return ('objprop', kind, self.idexpr(cx), prop)
+        if k == 2:
+            return ('objprop', 'field', self.idexpr(cx), r.choice([p for p in _S.CAST_PROPS if not p.startswith('UNKNOWN')]))
+        if k == 3:
+            return ('menuprop', r.choice(_S.MENUITEM_PROPS[1:]), self.idexpr(cx), self.idexpr(cx))
+        if k == 4:
+            return r.choice([('menuname', self.idexpr(cx)), ('menuitems', self.idexpr(cx)), ('numberof', 'menus'),
+                             ('numberof', 'castMembers')])
+        if k == 5:
+            return ('sysprop', r.choice(sorted(_S.SYS_INDEX)))
+        if k == 6:
+            return r.choice([('special', r.choice(_S.SPECIAL_PROPS)), ('datetime', r.choice(_S.DATE_TIME))])
+        if k == 7:
+            return ('keyprop', r.choice(_S.KEY_PROPS))
+        if k == 8:
+            return ('lastchunk', r.choice(CHUNKS), self.strexpr(cx))
+        if k == 9:
+            return ('numchunks', r.choice(CHUNKS), self.strexpr(cx))
+        if k in (10, 11):
+            return ('chunk', self.mods(cx), self.strexpr(cx))
+        if k == 12:
+            return ('field', self.idexpr(cx))
+        if k == 13:
+            return ('accessor', ('call', 'cast', [self.idexpr(cx)]), r.choice(['center', 'crop', 'depth', 'loaded', 'rect']))
+        return self.expr(cx, 2)
+    def strexpr(self, cx):
+        r = self.rng
+        k = r.random()
+        if k < 0.4 and cx['locals']:
+            return ('loc', r.choice(cx['locals']))
+        if k < 0.6:
+            return ('field', self.idexpr(cx))
+        if k < 0.75 and cx['globals']:
+            return ('glob', r.choice(cx['globals']))
+        if k < 0.9:
+            return ('str', r.choice(STRINGS[1:]))
+        return ('call', 'string', [('int', 12)])      # (a chunk of a chunk in increasing order is the same text as one chunk expression)
+    def ext_stmt(self, cx):
+        r = self.rng
+        k = r.randrange(15)
+        v = self.small(cx) if r.random() < 0.6 else self.ext_expr(cx)
+        if k == 0:
+            return ('setthe', r.choice(BYNAME_PROPS), v)
+        if k == 1:
+            kind = r.choice(['sprite', 'cast', 'sound'])
+            table = {'sprite': _S.SPRITE_PROPS, 'cast': _S.CAST_PROPS, 'sound': _S.SOUND_PROPS}[kind]
+            return ('setobjprop', kind, self.idexpr(cx), r.choice([p for p in table if not p.startswith('UNKNOWN')]), v)
+        if k == 2:
+            return ('setmenuprop', r.choice(_S.MENUITEM_PROPS[1:]), self.idexpr(cx), self.idexpr(cx), v)
+        if k == 3:
+            return r.choice([('setsys', r.choice(sorted(_S.SYS_INDEX)), v), ('setspecial', r.choice(_S.SPECIAL_PROPS), v)])
+        if k == 4:
+            return ('setaccessor', ('call', 'cast', [self.idexpr(cx)]), r.choice(['center', 'crop']), v)
+        if k in (5, 6) and cx['locals']:
+            return ('put', r.choice(['into', 'after', 'before']), v, ('loc', r.choice(cx['locals'])))
+        if k == 7:
+            return ('put', r.choice(['into', 'after', 'before']), v, ('field', self.idexpr(cx)))
+        if k in (8, 9):
+            base = self.target_base(cx)
+            return ('put', r.choice(['into', 'after', 'before']), v, ('chunk', self.mods(cx), base))
+        if k == 10:
+            return ('delete', ('chunk', self.mods(cx), self.target_base(cx)))
+        if k == 11:
+            return ('hilite', ('chunk', self.mods(cx), ('field', self.idexpr(cx))))
+        if k == 12:
+            inner = []
+            for _ in range(r.choice([1, 2, 3])):
+                if r.random() < 0.7:
+                    f = r.choice(['puppetTempo', 'go', 'updateStage', 'beep'])
+                    inner.append(('call', f, [] if f in ('updateStage', 'beep') else [('int', r.choice([1, 5]))]))
+                else:
+                    inner.append(('setsys', r.choice(sorted(_S.SYS_INDEX)), ('int', r.choice([0, 1, 255]))))
+            return ('tell', ('call', 'window', [('str', r.choice(['tour', 'w2']))]), inner)
+        if k == 13 and cx['locals']:
+            return ('call', 'put', [self.ext_expr(cx), self.ext_expr(cx)])
+        return ('call', 'put', [self.ext_expr(cx)])
+    def target_base(self, cx):
+        r = self.rng
+        k = r.random()
+        if k < 0.45 and cx['locals']:
+            return ('loc', r.choice(cx['locals']))
+        sg = [g for g in cx['globals'] if g in cx.get('sglobals', [])]
+        if k < 0.8 or not sg:
+            return ('field', self.idexpr(cx))
+        return ('glob', r.choice(sg))         # a chunk target that is a global: declared in the script header
+    def ext_script(self):
+        def body(g, cx):
+            n = g.rng.choice([2, 4, 6, 10])
+            return [g.ext_stmt(cx) if g.rng.random() < 0.75 else g.simple(cx, 2) for _ in range(n)]
+        return self.script(kind='plain', body_fn=body)
